@@ -361,7 +361,7 @@ def phs_element(case, keep):
     return abst
 
 
-def run_real_phs(case):
+def run_real_phs(case, sess=None):
     from snaxc.accelerators.snax_phs import SNAXPHSAccelerator
     from snaxc.dialects import accfg, snax_stream
     from snaxc.phs.decode import MappingNotFoundError, decode_abstract_graph
@@ -371,13 +371,19 @@ def run_real_phs(case):
     c20 = _c20()
     if not all(c20.well_typed(b) for b in case["bodies"] + [case["kernel"]]):
         return {"invalid_input": True}
-    keep = []
-    abst = phs_element(case, keep)
-    if abst is None:
-        return {"invalid_input": True}
-    t = case["tmpl"]
-    ident = AffineMap.identity(len(t["bounds"]))
-    acc = SNAXPHSAccelerator(abst, TemplateSpec(tuple([ident] * t["nin"]), (ident,), tuple(t["bounds"])))
+    if sess is None:
+        sess = {}
+    keep = sess.setdefault("keep", [])
+    if sess.get("acc") is not None:
+        acc, abst = sess["acc"], sess["abst"]
+    else:
+        abst = phs_element(case, keep)
+        if abst is None:
+            return {"invalid_input": True}
+        t = case["tmpl"]
+        ident = AffineMap.identity(len(t["bounds"]))
+        acc = SNAXPHSAccelerator(abst, TemplateSpec(tuple([ident] * t["nin"]), (ident,), tuple(t["bounds"])))
+        sess["acc"], sess["abst"] = acc, abst
     real_cfg = [{"t": [str(f.value) for f in st.temporal_dims], "s": list(st.spatial_dims), "o": []}
                 for st in acc.streamer_config.data.streamers]
     if real_cfg != case["cfg"]:
@@ -421,10 +427,15 @@ func.func public @streamer_add(%A: memref<?xi64>, %B: memref<?xi64>, %D: memref<
 """
 
 
-def run_real(case):
-    """-> {"fields": [...], "vals": [...]} | {"fields": [...], "raised": cls}"""
+def run_real(case, sess=None):
+    """-> {"fields": [...], "vals": [...]} | {"fields": [...], "raised": cls}
+
+    `sess` (a dict) keeps the accelerator OBJECT between calls: snaxc's config flow registers `lambda: accelerator_instance`,
+    so one object lowers every operation of a program; snax-opt builds a fresh object per lookup (sess=None)."""
     from snaxc.dialects import accfg
     kind = case["kind"]
+    if sess is None:
+        sess = {}
     if kind == "alu_linalg":
         # legacy path: linalg.generic handed to the ALU directly (what convert-linalg-to-accfg does for library_call)
         import snaxrun
@@ -432,7 +443,8 @@ def run_real(case):
         from xdsl.dialects import linalg
         mod = snaxrun.parse(ALU_LINALG_SRC)
         g = next(o for o in mod.walk() if isinstance(o, linalg.GenericOp))
-        acc = SNAXAluAccelerator(mk_cfg(case["cfg"]))
+        acc = sess.setdefault("acc", None) or SNAXAluAccelerator(mk_cfg(case["cfg"]))
+        sess["acc"] = acc
         ops = acc.convert_to_acc_ops(g)
         setup = next(o for o in ops if isinstance(o, accfg.SetupOp))
         refs = list(g.operands)
@@ -444,14 +456,19 @@ def run_real(case):
         from xdsl.dialects import linalg
         mod = snaxrun.parse(HWPE_SRC)
         g = next(o for o in mod.walk() if isinstance(o, linalg.GenericOp))
-        acc = SNAXHWPEMultAccelerator()
+        acc = sess.setdefault("acc", None) or SNAXHWPEMultAccelerator()
+        sess["acc"] = acc
         ops = acc.convert_to_acc_ops(g)
         setup = next(o for o in ops if isinstance(o, accfg.SetupOp))
         refs = list(g.operands)
         return {"fields": list(acc.fields),
                 "vals": [tree_of(v, None, None, refs) for v in setup.values],
                 "names": [n for n, _ in setup.iter_params()], "launch": launch_of(ops)}
-    if kind == "alu":
+    if kind == "phs":
+        return run_real_phs(case, sess)
+    if sess.get("acc") is not None:
+        acc = sess["acc"]
+    elif kind == "alu":
         from snaxc.accelerators.snax_alu import SNAXAluAccelerator
         acc = SNAXAluAccelerator(mk_cfg(case["cfg"]))
     elif kind == "gemmx":
@@ -460,10 +477,9 @@ def run_real(case):
     elif kind == "xdma":
         from snaxc.accelerators.snax_xdma import SNAXXDMAAccelerator
         acc = SNAXXDMAAccelerator(mk_cfg(case["cfg"], xdma=True))
-    elif kind == "phs":
-        return run_real_phs(case)
     else:
         raise ValueError(kind)
+    sess["acc"] = acc
     out = {"fields": list(acc.fields)}
     op, opnds, first_generic, zps = build_region(case, acc.name)
     out["accepts"] = region_verifies(acc, op, opnds)
@@ -759,18 +775,22 @@ XDMA_DEFAULT = [
 ALU_DEFAULT = [{"t": ["n"], "s": [4], "o": []}] * 3
 
 
-def gen_alu(rng, malformed=False):
-    cfg = ALU_DEFAULT if rng.random() < 0.1 else [gen_streamer(rng, REG_OPTS) for _ in range(rng.randint(1, 4))]
+def gen_alu(rng, malformed=False, cfg=None):
+    if cfg is None:
+        cfg = ALU_DEFAULT if rng.random() < 0.1 else [gen_streamer(rng, REG_OPTS) for _ in range(rng.randint(1, 4))]
     cfg = [dict(s) for s in cfg]
     return {"kind": "alu", "cfg": cfg, "op": gen_streamop(rng, cfg, malformed)}
 
 
-def gen_gemmx(rng, malformed=False, short=False):
-    if rng.random() < 0.3:
+def gen_gemmx(rng, malformed=False, short=False, cfg=None, n=None):
+    if cfg is not None:
+        cfg = [dict(s) for s in cfg]
+    elif rng.random() < 0.3:
         cfg = [dict(s) for s in GEMMX_DEFAULT]
     else:
         cfg = [gen_streamer(rng, REG_OPTS) for _ in range(rng.randint(3, 6))]
-    n = rng.choice([4, 8, 8, 8, 12, 16]) if not malformed else rng.choice([1, 2, 3, 5, 6, 8])
+    if n is None:
+        n = rng.choice([4, 8, 8, 8, 12, 16]) if not malformed else rng.choice([1, 2, 3, 5, 6, 8])
     op = gen_streamop(rng, cfg, malformed)
     r = rng.random()
     i8 = rng.random() < 0.5
@@ -820,8 +840,10 @@ def gen_gemmx(rng, malformed=False, short=False):
             "post": None, "nin": 2}
 
 
-def gen_xdma(rng, malformed=False, notgeneric=False):
-    if rng.random() < 0.2:
+def gen_xdma(rng, malformed=False, notgeneric=False, cfg=None):
+    if cfg is not None:
+        cfg = [dict(s) for s in cfg]
+    elif rng.random() < 0.2:
         cfg = [dict(s) for s in XDMA_DEFAULT]
     else:
         cfg = [gen_streamer(rng, XDMA_OPTS) for _ in range(2 if rng.random() < 0.8 else rng.randint(1, 3))]
@@ -979,6 +1001,83 @@ def gen_phs(rng, tier):
             "tmpl": {"nin": nin, "bounds": bounds}}
 
 
+def gen_session(rng, kind):
+    """ONE accelerator object lowering several operations in a row (the config flow registers `lambda: instance`): 2..4
+    operations on the same configuration, broadcasting / zero-pointer / padded ones mixed with plain ones in random order,
+    sometimes the same operation twice. Every operation must be lowered as if it were the only one."""
+    first = {"alu": gen_alu, "gemmx": gen_gemmx, "xdma": gen_xdma}[kind](rng)
+    if kind != "xdma":
+        # give the option that carries per-operation state (broadcast enable) a good chance to be there
+        for st in first["cfg"]:
+            if "b" not in st["o"] and rng.random() < 0.6:
+                st["o"] = st["o"] + ["b"]
+        first = {"alu": gen_alu, "gemmx": gen_gemmx}[kind](rng, cfg=first["cfg"], **({"n": first["n"]} if kind == "gemmx" else {}))
+    steps = [first]
+    for _ in range(rng.randint(1, 3)):
+        if rng.random() < 0.2:
+            steps.append(json_copy(rng.choice(steps)))
+            continue
+        if kind == "alu":
+            st = gen_alu(rng, cfg=first["cfg"]) if rng.random() < 0.9 else {"kind": "alu_linalg", "cfg": first["cfg"]}
+        elif kind == "gemmx":
+            st = gen_gemmx(rng, cfg=first["cfg"], n=first["n"])
+            st["m"], st["k"] = first["m"], first["k"]
+        else:
+            st = gen_xdma(rng, cfg=first["cfg"])
+        steps.append(st)
+    # make sure stateful values differ between neighbours: flip "has a zero spatial stride" on one operand of step 1
+    for a, b in zip(steps, steps[1:]):
+        if "op" in a and "op" in b and a["op"]["pats"] and len(a["op"]["pats"]) == len(b["op"]["pats"]):
+            i = rng.randrange(len(a["op"]["pats"]))
+            if a["op"]["pats"][i]["ss"] and b["op"]["pats"][i]["ss"]:
+                a["op"]["pats"][i]["ss"][-1] = 0
+                if b["op"]["pats"][i]["ss"][-1] == 0:
+                    b["op"]["pats"][i]["ss"][-1] = 8 * rng.randint(1, 40)
+    rng.shuffle(steps) if rng.random() < 0.3 else None
+    return {"kind": "seq", "steps": steps, "objects": "fresh" if rng.random() < 0.25 else "one"}
+
+
+def json_copy(x):
+    import json
+    return json.loads(json.dumps(x))
+
+
+def sessions_small(rng):
+    """the named orders: broadcasting region then plain region (and back), same region twice, zero pointer then plain,
+    on alu with the broadcast option, the default gemmx (C = bias vector [8, 0] then full matrix [8, 64]) and xDMA"""
+    def alu_case(ss_b, zero=False):
+        cfg = [{"t": ["n"], "s": [4], "o": ["b", "c"]}, {"t": ["n"], "s": [4], "o": ["b"]}, {"t": ["n"], "s": [4], "o": []}]
+        op = {"pats": [{"ub": [16], "ts": [32], "ss": [8]}, {"ub": [16], "ts": [32], "ss": [ss_b]},
+                       {"ub": [16], "ts": [32], "ss": [8]}], "zero": [zero, False, False]}
+        return {"kind": "alu", "cfg": cfg, "op": op}
+    for order in ([alu_case(0), alu_case(8)], [alu_case(8), alu_case(0)], [alu_case(0), alu_case(0), alu_case(8)],
+                  [alu_case(8, zero=True), alu_case(8)], [alu_case(0), {"kind": "alu_linalg", "cfg": alu_case(0)["cfg"]}, alu_case(8)]):
+        yield {"kind": "seq", "steps": json_copy(order), "objects": "one"}
+        yield {"kind": "seq", "steps": json_copy(order), "objects": "fresh"}
+
+    def gemm_case(c_ss):
+        cfg = [dict(s) for s in GEMMX_DEFAULT]
+        pats = [{"ub": [2, 2, 2], "ts": [64, 0, 128], "ss": [8]}, {"ub": [2, 2, 2], "ts": [64, 128, 0], "ss": [8]},
+                {"ub": [0, 0, 0], "ts": [0, 0, 0], "ss": [0]}, {"ub": [2, 2, 2], "ts": [0, 256, 512], "ss": list(c_ss)},
+                {"ub": [2, 2, 2], "ts": [0, 256, 512], "ss": [8, 64]}]
+        return {"kind": "gemmx", "cfg": cfg, "n": 8, "m": 8, "k": 8, "op": {"pats": pats, "zero": [False] * 5},
+                "kernel": ["mac", [2, 3]], "i8out": False, "post": None, "nin": 4, "mid": 1}
+    for order in ([gemm_case([8, 0]), gemm_case([8, 64])], [gemm_case([8, 64]), gemm_case([8, 0])],
+                  [gemm_case([8, 0]), gemm_case([8, 0]), gemm_case([8, 64])]):
+        yield {"kind": "seq", "steps": json_copy(order), "objects": "one"}
+        yield {"kind": "seq", "steps": json_copy(order), "objects": "fresh"}
+
+    def xdma_case(zero, kernel):
+        cfg = [dict(s) for s in XDMA_DEFAULT]
+        return {"kind": "xdma", "cfg": cfg, "kernel": kernel,
+                "op": {"pats": [{"ub": [4, 2], "ts": [64, 512], "ss": [8]}, {"ub": [8], "ts": [64], "ss": [8]}], "zero": zero}}
+    for order in ([xdma_case([True, False], ["add"]), xdma_case([False, False], ["other"])],
+                  [xdma_case([False, False], ["rescale", True, 3, 5, 7, 9]), xdma_case([False, False], ["add"]),
+                   xdma_case([False, False], ["rescale", False, 1, 2, 3, 4])]):
+        yield {"kind": "seq", "steps": json_copy(order), "objects": "one"}
+        yield {"kind": "seq", "steps": json_copy(order), "objects": "fresh"}
+
+
 def gemmx_shapes(rng):
     """(q)mac, (q)mac->rescale, (q)mac->add, (q)mac->add->rescale, (q)mac->add->add->rescale on the default geometry"""
     # every supported gemmx region shape x output type x per-tensor / per-channel rescale on the default geometry
@@ -1042,7 +1141,8 @@ class C08(Prop):
     ]
     rule = ("structured random configurations (1..6 temporal dims with n/i/r flags, 1..2 spatial dims, random option / "
             "extension subsets in random order, gemmx n in {4,8,12,16}, mac/qmac/rescale/post-rescale bodies, zero pointers) "
-            "with marker stride patterns; hand-written non-canonical regions (unit loops leading/middle/trailing, contiguous "
+            "with marker stride patterns; sessions = 2..4 operations lowered in a row by ONE accelerator object (config flow) or by "
+            "fresh objects in one process, broadcasting / zero-pointer / plain operations in both orders; hand-written non-canonical regions (unit loops leading/middle/trailing, contiguous "
             "loop pairs, over-long patterns that fold to fit and that do not) run through the real region verifier; pointer operands are a mix of op results, non-zero constants, function arguments, "
             "loop-carried values and zero constants in every position (enumerated for 3-streamer alu, xDMA, gemmx); non-trivial = values were produced and some pattern is shorter than the "
             "streamer (padding) or a reuse dimension collapses or a zero pointer/packed field is present")
@@ -1061,6 +1161,9 @@ class C08(Prop):
             yield gen_noncanonical(rng, ("alu", "xdma", "gemmx")[i % 3])
         for i in range(n // 6):
             yield gen_phs(rng, tier)
+        yield from sessions_small(rng)
+        for i in range(n // 6):
+            yield gen_session(rng, ("alu", "gemmx", "xdma")[i % 3])
         if tier != "thorough":
             yield from gemmx_shapes(rng)
         if tier == "thorough":
@@ -1081,9 +1184,68 @@ class C08(Prop):
 
     # -- the two sides ------------------------------------------------------------------------
     def impl(self, case):
+        if case["kind"] == "seq":
+            sess = {}
+            outs = []
+            for st in case["steps"]:
+                if case.get("objects") == "fresh":
+                    sess = {}       # a new accelerator object per operation, same process: class / module level state
+                try:
+                    outs.append(run_real(st, sess))
+                except (ImportError, SyntaxError, MemoryError):
+                    raise
+                except Exception as e:  # noqa: BLE001   (the real code raised something the single-op path does not expect)
+                    outs.append({"raised": type(e).__name__, "msg": str(e)[:200]})
+            return {"steps": outs}
         return run_real(case)
 
+    # -- sessions: one accelerator object, several operations -------------------------------------------------
     def requests(self, case):
+        if case["kind"] == "seq":
+            return [r for st in case["steps"] for r in self.requests1(st)]
+        return self.requests1(case)
+
+    def model(self, case, answers):
+        if case["kind"] == "seq":
+            # the model is a function of (configuration, operation): no state to carry from one operation to the next
+            return {"steps": [self.model1(st, [a]) for st, a in zip(case["steps"], answers)]}
+        return self.model1(case, answers)
+
+    def oracle(self, case, impl_out):
+        if case["kind"] != "seq":
+            return self.oracle1(case, impl_out)
+        if "steps" not in impl_out:
+            return [{"what": f"the session raised {impl_out.get('raised')}: {impl_out.get('msg')}", "finding": None}]
+        out = []
+        n = len(case["steps"])
+        for i, (st, o) in enumerate(zip(case["steps"], impl_out["steps"])):
+            for v in self.oracle1(st, o):
+                how = "a fresh accelerator object per operation" if case.get("objects") == "fresh" else "ONE accelerator object"
+                out.append(dict(v, what=f"operation {i + 1} of {n} lowered by {how}: {v['what']}"))
+        return out
+
+    def nontrivial(self, case, impl_out):
+        if case["kind"] == "seq":
+            return any(self.nontrivial1(st, o) for st, o in zip(case["steps"], impl_out.get("steps", [])))
+        return self.nontrivial1(case, impl_out)
+
+    def stats_key(self, case, impl_out):
+        if case["kind"] == "seq":
+            if isinstance(impl_out, dict) and "steps" not in impl_out:
+                return "seq:raised"
+            return "seq:" + case.get("objects", "one") + ":" + case["steps"][0]["kind"] + f":{len(case['steps'])}ops"
+        return self.stats_key1(case, impl_out)
+
+    def shrink(self, case):
+        if case["kind"] == "seq":
+            steps = case["steps"]
+            if len(steps) > 1:
+                for i in range(len(steps)):
+                    yield dict(case, steps=steps[:i] + steps[i + 1:])
+            return
+        yield from self.shrink1(case)
+
+    def requests1(self, case):
         k = case["kind"]
         if k == "hwpe":
             return [{"fn": "c08.hwpe", "args": {}}]
@@ -1109,7 +1271,7 @@ class C08(Prop):
                                                  "kernel": case["kernel"]}}]
         return []
 
-    def model(self, case, answers):
+    def model1(self, case, answers):
         a = answers[0]
         if "err" in a:
             return {"model_error": a["err"]}
@@ -1121,12 +1283,16 @@ class C08(Prop):
 
     def compare(self, case, impl_out, model_out):
         # keys starting with "_" are notes of the real side for the oracle, not part of the correspondence
-        if isinstance(impl_out, dict):
-            impl_out = {k: v for k, v in impl_out.items() if not k.startswith("_")}
+        def strip(o):
+            return {k: v for k, v in o.items() if not k.startswith("_")} if isinstance(o, dict) else o
+        if isinstance(impl_out, dict) and "steps" in impl_out:
+            impl_out = {"steps": [strip(o) for o in impl_out["steps"]]}
+        else:
+            impl_out = strip(impl_out)
         return super().compare(case, impl_out, model_out)
 
     # -- the property on the real output --------------------------------------------------------
-    def oracle(self, case, impl_out):
+    def oracle1(self, case, impl_out):
         out = []
         if impl_out.get("invalid_input"):
             return []
@@ -1260,7 +1426,7 @@ class C08(Prop):
                 res.append(o)
         return res
 
-    def nontrivial(self, case, impl_out):
+    def nontrivial1(self, case, impl_out):
         if "vals" not in impl_out:
             return False
         if case["kind"] in ("hwpe", "alu_linalg"):
@@ -1273,7 +1439,7 @@ class C08(Prop):
                 return True
         return any(op["zero"]) or case["kind"] == "gemmx" or (case["kind"] == "phs" and impl_out.get("true", 0) > 0)
 
-    def stats_key(self, case, impl_out):
+    def stats_key1(self, case, impl_out):
         k = case["kind"]
         if k == "gemmx":
             k += (":" + case["kernel"][0] + (":i8" if case["i8out"] else ":i32") + (":add" * case.get("mid", 0))
@@ -1288,7 +1454,7 @@ class C08(Prop):
             return f"{k}:raised:{impl_out['raised']}"
         return k
 
-    def shrink(self, case):
+    def shrink1(self, case):
         if case["kind"] in ("hwpe", "alu_linalg"):
             return
         if case["kind"] == "phs":
